@@ -105,17 +105,17 @@ fn mt_sound(prop: &str, rule: &str, sig: &str) -> bool {
         ("C13", "R1" | "R3") => !sig.starts_with("unfinished"),
         ("C16", "R3") => true,
         ("C17", "R2" | "R3") => true,
-        ("C17", "R1") => sig == "join_some_before_stopped",
+        ("C17", "R1") => sig == "join_some_before_stopped" || sig.starts_with("first_join_none"),
         _ => false,
     }
 }
 
 fn mt_premise(key: &str) -> bool {
-    const OK: [&str; 38] = [
+    const OK: [&str; 39] = [
         "C07.R2", "C07.R3.strategy_model", "C07.R3.state_carried_or_reset", "C07.R3.non_restartable_ignores", "C07.R1", "C10.R1", "C10.R3", "C15.R1", "C15.R2", "C15.R4", "C15.R5",
         "C15.R9", "C15.R6",
         "C01.", "C02.R1", "C02.R2", "C02.R3", "C03.R1", "C03.R2", "C03.R4", "C04.R1", "C04.R2", "C04.R4", "C05.R3.upgrade_after_last_drop", "C05.R1.no_termination_while_held", "C08.", "C09.R1", "C09.R2", "C09.R3",
-        "C09.R4", "C12.R1", "C12.R3", "C13.R1", "C13.R3", "C16.R3", "C17.R2", "C17.R3", "C17.R1.join_after_stopped",
+        "C09.R4", "C12.R1", "C12.R3", "C13.R1", "C13.R3", "C16.R3", "C17.R2", "C17.R3", "C17.R1.join_after_stopped", "C17.R1.first_join_result",
     ];
     OK.iter().any(|p| key.starts_with(p))
 }
